@@ -1,0 +1,34 @@
+//go:build verif
+
+package pipeline
+
+import (
+	"github.com/prometheus/client_golang/prometheus"
+	"go.uber.org/zap"
+)
+
+// Verification-only accessors for property C06 (file reader offsets / size rule).
+// Add-only: nothing here is referenced by production code.
+
+// VerifCurrentC06 returns the `current` offset an input plugin attached to an event.
+func (o Offsets) VerifCurrentC06() int64 { return o.current }
+
+// VerifNewPipelineC06 builds a pipeline whose only configured behaviour is the event size rule.
+func VerifNewPipelineC06(maxEventSize int, cutOff bool) *Pipeline {
+	return New("verif_c06", &Settings{
+		Capacity:           1,
+		Decoder:            "raw",
+		MaxEventSize:       maxEventSize,
+		CutOffEventByLimit: cutOff,
+		Metric: &MetricSettings{
+			HoldDuration:        DefaultMetricHoldDuration,
+			MaxLabelValueLength: DefaultMetricMaxLabelValueLength,
+		},
+	}, prometheus.NewRegistry(), zap.NewNop())
+}
+
+// VerifCheckInputBytesC06 runs the real admission check of Pipeline.In on b (b may be modified in
+// place exactly as In would do it) and returns (bytes, cutoff, ok).
+func (p *Pipeline) VerifCheckInputBytesC06(b []byte) ([]byte, bool, bool) {
+	return p.checkInputBytes(b, "verif", nil)
+}
